@@ -1,5 +1,6 @@
 """C06 — entry points exist exactly for defined, non-overridden kinds and forward calls."""
 import itertools
+import re
 import json
 
 from .. import common as c
@@ -49,6 +50,53 @@ def configs(ctx):
                     ct["ep_generics"] = ["u32", "Vec<String>"]
                 out.append(ct)
     return out
+
+
+def legacy_reply_stream(ctx, cls):
+    """Contracts without the `replies` feature: the reply entry point hands the whole `Reply` to the (first) method annotated
+    `reply`. Handlers of other kinds that also take just a `Reply` are declared before and after it: the entry point must not
+    call one of them (C04: a handler runs only for a message arriving at the entry point of its own kind)."""
+    cfgs = []
+    for other_kind in ("sudo", "migrate", "exec", "query"):
+        for before in (True, False):
+            for generic in (False, True):
+                reply_m = gen.simple_method("on_reply", "reply", [{"name": "reply", "ty": gen.P("Reply")}])
+                other = gen.simple_method("other_%s" % other_kind, other_kind, [{"name": "reply", "ty": gen.P("Reply")}],
+                                          ret=gen.std_result(gen.P("u32")) if other_kind == "query" else None)
+                methods = [gen.simple_method("instantiate", "instantiate", [{"name": "a", "ty": gen.P("u32")}]), gen.simple_method("do_it", "exec"),
+                           gen.simple_method("get_it", "query", ret=gen.std_result(gen.P("u32"))), gen.simple_method("su_do", "sudo")]
+                methods += [other, reply_m] if before else [reply_m, other]
+                ct = {"name": "Ct", "methods": methods, "overrides": [], "replies": False}
+                if generic:
+                    ct["generics"] = [{"name": "T", "text": "T"}]
+                    ct["ep_generics"] = ["u32"]
+                cfgs.append((ct, other_kind, before))
+    progs = []
+    for i, (ct, _, _) in enumerate(cfgs):
+        attr = "generics<%s>" % ", ".join(ct["ep_generics"]) if ct.get("ep_generics") else ""
+        progs.append(("lr%d" % i, "entry_points", attr, gen.render_contract(ct)))
+    res = l1.expand(progs, "C06lr")
+    bad = 0
+    for i, (ct, other_kind, before) in enumerate(cfgs):
+        f = res["lr%d" % i]
+        obs = observed(f) if f["status"] == "clean" else None
+        rep = [x for x in (obs or []) if x["name"] == "reply"]
+        why = None
+        if f["status"] != "clean" or not rep:
+            why = "expansion status %s, reply entry point %s" % (f["status"], "present" if rep else "absent")
+        else:
+            body = rep[0]["body"].replace(" ", "")
+            m = re.search(r"::new\(\)\.(\w+)\(", body)
+            called = m.group(1) if m else None
+            if called != "on_reply":
+                why = "the reply entry point calls `%s`, a %s handler declared %s the reply handler `on_reply`" % (
+                    called, other_kind if called == "other_%s" % other_kind else "?", "before" if before else "after")
+        if why:
+            bad += 1
+            ctx.violation(cls, "contract without the replies feature: " + why,
+                          {"source": progs[i][3], "macro": "entry_points", "attr": progs[i][2], "observed": obs})
+    ctx.add_stream("L1-legacy-reply-entry-point", len(cfgs), len(cfgs), samples=[progs[0][3]], exhaustive=True, oracle_failures=bad)
+    ctx.cov["traces_validated_against_impl"] += len(cfgs)
 
 
 def observed(facts):
@@ -145,6 +193,7 @@ def run(ctx):
                    exhaustive=True, model_disagreements=ndiff, oracle_failures=bad)
     ctx.cov["exhaustive"] = True
     ctx.cov["traces_validated_against_impl"] += len(cfgs)
+    legacy_reply_stream(ctx, "entry-point-shape")
     ctx.cov["rule"] = ("all 2^6 subsets of overridden kinds x migrate handler x reply handler x replies feature x generic contract (1024 programs, "
                        "override order varied, some repeated, in a fifth of the programs with several overrides all of them name one shared function); distinct = (override set, required entry point set)")
     # a failed obligation that the concrete violations explain is not reported twice
